@@ -5,6 +5,7 @@ import FerretVerif.Props.C04
 import FerretVerif.Props.C05
 import FerretVerif.Props.C06
 import FerretVerif.Props.C08
+import FerretVerif.Props.C09
 import FerretVerif.Props.C10
 import FerretVerif.Props.C11
 import FerretVerif.Props.C13
